@@ -6,6 +6,7 @@ import numpy as np
 from ..core import guarded
 from ..gens import spectra as gs
 from ..monitors import spectrum as ms
+from ..monitors import history as hist
 from ..oracles import spectral as osp
 from .c01 import bands
 
@@ -255,6 +256,13 @@ def judge_sequence(ctx, c, rng):
     read()
 
 
+def history_io(c):
+    reads = hist.reads_from(c, banded=("peak_index", "peak_frequency", "peak_period", "peak_angular_frequency", "peak_direction",
+                                       "peak_directional_spread"),
+                            plain=("peak_wavenumber",), calls=(("peak_wave_speed()", lambda s: s.peak_wave_speed()),))
+    return reads, hist.spectrum_mods(c, with_depth=True)
+
+
 def make_case(rng):
     if rng.uniform() < 0.5:
         c = gs.case_1d(rng, nf=int(rng.integers(1, 30)), depth_kind="mixed" if rng.uniform() < 0.6 else None,
@@ -279,6 +287,8 @@ def run_shard(ctx, shard):
         judge(ctx, c, np.random.default_rng(c["_sub"]))
         if i % 3 == 0:
             judge_sequence(ctx, c, np.random.default_rng(c["_sub"] + 1))
+        if i % 2 == 1 and len(c["freq"]) >= 3:
+            hist.judge_history(ctx, "C04", c, np.random.default_rng(c["_sub"] + 2), *history_io(c))
 
 
 def replay(ctx, case):
@@ -287,7 +297,9 @@ def replay(ctx, case):
         ms.call_case(case)
     else:
         g = case["gen"]
-        if case.get("sequence"):
+        if "history" in case:
+            hist.run_history(ctx, "C04", g, case["history"], *history_io(g))
+        elif case.get("sequence"):
             judge_sequence(ctx, g, np.random.default_rng(int(g["_sub"]) + 1))
         else:
             judge(ctx, g, np.random.default_rng(int(g["_sub"])))
